@@ -15,6 +15,7 @@ pub fn info() -> PropInfo {
             "serde_json / base64 / sha2 are shared with the library (trusted base)",
         ],
         needs_mock: false,
+        rounds: 2,
     }
 }
 
